@@ -17,6 +17,7 @@
 package index
 
 import (
+	"errors"
 	"fmt"
 	"log"
 	"math"
@@ -31,9 +32,16 @@ type mmapedIndexFile struct {
 	data []byte
 }
 
+// errCorrupt marks errors that come from a damaged index file (as opposed to
+// errors in the query or a cancelled context).
+var errCorrupt = errors.New("corrupt index file")
+
+// IsCorrupt reports whether err was caused by a damaged index file.
+func IsCorrupt(err error) bool { return errors.Is(err, errCorrupt) }
+
 func (f *mmapedIndexFile) Read(off, sz uint32) ([]byte, error) {
 	if off > off+sz || off+sz > uint32(len(f.data)) {
-		return nil, fmt.Errorf("out of bounds: %d, len %d, name %s", off+sz, len(f.data), f.name)
+		return nil, fmt.Errorf("%w: out of bounds: %d, len %d, name %s", errCorrupt, off+sz, len(f.data), f.name)
 	}
 	return f.data[off : off+sz], nil
 }
